@@ -624,6 +624,15 @@ OBLIGATIONS.append(k2("token.duplicate_member", _k2h("react::reaction_trigger", 
                       "the token names a repeated trigger once per member (registration stores one handle per member, so a shorter "
                       "token would leave a registration behind after the revoke)",
                       witness=[["revoke_dup", "once_duplicate"]]))
+OBLIGATIONS.append(k2("once.mode", _k2h("react::react_commands", "once_registers_in_a_refcounted_mode"), ["C15", "C07"],
+                      ["ReactCommands::once", "ReactCommandsExt::syscall_with_validation (deferred)", "syscall_with_validation", "validate_rc"],
+                      ["src/react/react_commands.rs", "src/ecs/syscall.rs"],
+                      "one-trigger bundle; the deferred registration closure is applied at once",
+                      "once() registers its triggers for the wrapper's own entity in a ref-counted mode, so a one-off reactor that never runs "
+                      "(revoked before firing, empty bundle, trigger entity gone) is still collected",
+                      stubs=["register_reactors -> record_register (records the mode and the system command it was called with; what "
+                             "registration does with a mode is decided by register.* / mode.*)"],
+                      no_native_playback=True, witness=[["once", "never_runs"]]))
 OBLIGATIONS.append(k2("once.witness", _k2h("react::react_commands", "once_reactor_witness"), ["C15"], [], ["src/react/react_commands.rs"], "-",
                       "vacuity twin of once.wrapper", expect="fail",
                       stubs=["ReactCommands::revoke -> record_revoke"]))
